@@ -207,6 +207,239 @@ type op struct {
 	// The container machine has one OCall: parameter and outer names behave alike at any depth, so the driver drops form and wrap.
 	form byte
 	wrap string
+	v    *vcall // kind 'V': a = result variable, wrap = where the call is made
+}
+
+// ---- variadic calls (direct oracle only: the container machine has no variadic functions, the driver prints SKIP for a
+// sequence that contains one).   [func vf(p0,..,..){BODY};] r = <call site>( vf(args) )
+type varg struct {
+	kind byte  // 'v' the variable named directly (inside a function body: an outer variable, a Reference)  'e' an expression [vN][0]
+	n    int64 // 'l' a local of the calling function holding a copy   'p' the parameter pp of the calling function   'i' integer n
+}
+type vcall struct {
+	np   int  // named parameters p0.. before `..`
+	ret  byte // what outlives the call: 'd' `..`  's' `..[1:]`  'a' `[..,7]`  'm' `{1:..}`  'p' `[p0,..]`  'o' outer variable out=.. (result 7)
+	ff   byte // 'n' func vf(..){}   'f' vf=func(..){}   'l' ((..)=>{..}) called in place
+	pv   int  // the variable passed as pp when some argument is 'p'
+	out  int
+	args []varg
+}
+
+func (v *vcall) hasP() bool {
+	for _, a := range v.args {
+		if a.kind == 'p' {
+			return true
+		}
+	}
+	return false
+}
+
+func (o op) vEnc() string {
+	v := o.v
+	as := make([]string, len(v.args))
+	for i, a := range v.args {
+		if a.kind == 'p' {
+			as[i] = "p"
+		} else {
+			as[i] = string(a.kind) + strconv.FormatInt(a.n, 10)
+		}
+	}
+	w, al := o.wrap, strings.Join(as, "|")
+	if w == "" {
+		w = "-"
+	}
+	if al == "" {
+		al = "-"
+	}
+	return fmt.Sprintf("V:%d,%d,%d%c%c,%s,%d:%s", o.a, v.out, v.np, v.ret, v.ff, w, v.pv, al)
+}
+
+func decV(rest string) op {
+	i := strings.IndexByte(rest, ':')
+	hd := strings.Split(rest[:i], ",")
+	v := &vcall{out: atoi(hd[1]), np: int(hd[2][0] - '0'), ret: hd[2][1], ff: hd[2][2], pv: atoi(hd[4])}
+	o := op{kind: 'V', a: atoi(hd[0]), v: v}
+	if hd[3] != "-" {
+		o.wrap = hd[3]
+	}
+	if rest[i+1:] != "-" {
+		for _, a := range strings.Split(rest[i+1:], "|") {
+			if a == "p" {
+				v.args = append(v.args, varg{kind: 'p'})
+			} else {
+				v.args = append(v.args, varg{kind: a[0], n: atoi64(a[1:])})
+			}
+		}
+	}
+	return o
+}
+
+func wrapSrc(wrap, inner string) string {
+	for i := len(wrap) - 1; i >= 0; i-- {
+		switch wrap[i] {
+		case 'f':
+			inner = "func(){" + inner + "}()"
+		case 'l':
+			inner = "(()=>{" + inner + "})()"
+		case 'i':
+			inner = "if true {" + inner + "}"
+		default:
+			inner = "for 1 {" + inner + "}"
+		}
+	}
+	return inner
+}
+
+func (o op) vSrc() string {
+	v := o.v
+	var params []string
+	for i := 0; i < v.np; i++ {
+		params = append(params, "p"+strconv.Itoa(i))
+	}
+	params = append(params, "..")
+	body := ".."
+	switch v.ret {
+	case 's':
+		body = "..[1:]"
+	case 'a':
+		body = "[..,7]"
+	case 'm':
+		body = "{1:..}"
+	case 'p':
+		body = "[..,7]"
+		if v.np > 0 {
+			body = "[p0,..]"
+		}
+	case 'o':
+		body = vname(v.out) + "=..;7"
+	}
+	// one name per body: a function re-defined with another body is a matter of the memoization cache (C04), not of this property
+	def, callee := "", fmt.Sprintf("vf%d%c", v.np, v.ret)
+	if v.ret == 'o' {
+		callee += strconv.Itoa(v.out)
+	}
+	switch v.ff {
+	case 'n':
+		def = "func " + callee + "(" + strings.Join(params, ",") + "){" + body + "};"
+	case 'f':
+		def = callee + "=func(" + strings.Join(params, ",") + "){" + body + "};"
+	default:
+		callee = "((" + strings.Join(params, ",") + ")=>{" + body + "})"
+	}
+	var pre, as []string
+	for i, a := range v.args {
+		switch a.kind {
+		case 'v':
+			as = append(as, vname(int(a.n)))
+		case 'e':
+			as = append(as, "["+vname(int(a.n))+"][0]")
+		case 'l':
+			l := "ll" + strconv.Itoa(i)
+			pre = append(pre, l+"="+vname(int(a.n)))
+			as = append(as, l)
+		case 'p':
+			as = append(as, "pp")
+		default:
+			as = append(as, strconv.FormatInt(a.n, 10))
+		}
+	}
+	inner := wrapSrc(o.wrap, strings.Join(append(pre, callee+"("+strings.Join(as, ",")+")"), ";"))
+	if v.hasP() {
+		inner = "func(pp){" + inner + "}(" + vname(v.pv) + ")"
+	}
+	return def + vname(o.a) + "=" + inner
+}
+
+// the elements of a rendered array, split at the top level (values are integers, nil, arrays and maps: no quotes)
+func splitTop(txt string) []string {
+	txt = txt[1 : len(txt)-1]
+	if txt == "" {
+		return nil
+	}
+	var parts []string
+	depth, start := 0, 0
+	for i := 0; i < len(txt); i++ {
+		switch txt[i] {
+		case '[', '{':
+			depth++
+		case ']', '}':
+			depth--
+		case ',':
+			if depth == 0 {
+				parts = append(parts, txt[start:i])
+				start = i + 1
+			}
+		}
+	}
+	return append(parts, txt[start:])
+}
+
+type vexp struct {
+	err              bool
+	res, out         string // renderings of the result variable and (ret 'o', outer variable bound) of `out`
+	resKind, outKind byte
+	setsOut          bool
+}
+
+func arrKind(n int) byte {
+	if n > 8 {
+		return 'b'
+	}
+	return 's'
+}
+
+// the harness's own reference semantics of a variadic call, on renderings: arguments are VALUES taken when the call is made;
+// a last argument that is an array is spread; p0.. take the first np, `..` is the array of the others
+func (o op) vExpect(before [nVars]binding) vexp {
+	v := o.v
+	var vals []string
+	lastArr := false
+	for _, a := range v.args {
+		lastArr = false
+		switch a.kind {
+		case 'i':
+			vals = append(vals, strconv.FormatInt(a.n, 10))
+		default:
+			n := int(a.n)
+			if a.kind == 'p' {
+				n = v.pv
+			}
+			if !before[n].present {
+				return vexp{err: true}
+			}
+			vals = append(vals, before[n].text)
+			lastArr = isArr(before[n])
+		}
+	}
+	if lastArr {
+		vals = append(vals[:len(vals)-1:len(vals)-1], splitTop(vals[len(vals)-1])...)
+	}
+	if len(vals) < v.np {
+		return vexp{err: true}
+	}
+	extra := vals[v.np:]
+	dd := "[" + strings.Join(extra, ",") + "]"
+	switch v.ret {
+	case 'd':
+		return vexp{res: dd, resKind: arrKind(len(extra))}
+	case 's':
+		if len(extra) == 0 {
+			return vexp{err: true}
+		}
+		return vexp{res: "[" + strings.Join(extra[1:], ",") + "]", resKind: arrKind(len(extra) - 1)}
+	case 'a':
+		return vexp{res: "[" + dd + ",7]", resKind: 's'}
+	case 'm':
+		return vexp{res: "{1:" + dd + "}", resKind: 'S'}
+	case 'p':
+		if v.np > 0 {
+			return vexp{res: "[" + vals[0] + "," + dd + "]", resKind: 's'}
+		}
+		return vexp{res: "[" + dd + ",7]", resKind: 's'}
+	default:
+		// an assignment inside vf to a name that is not bound outside makes a local of vf
+		return vexp{res: "7", resKind: 'i', out: dd, outKind: arrKind(len(extra)), setsOut: before[v.out].present}
+	}
 }
 
 func (o op) callTag() string {
@@ -229,6 +462,8 @@ func bodyEnc(b []prim) string {
 }
 func (o op) enc() string {
 	switch o.kind {
+	case 'V':
+		return o.vEnc()
 	case 'P':
 		return "P:" + o.p.enc()
 	case 'F':
@@ -246,6 +481,8 @@ func (o op) src() string {
 		parts[i] = p.src()
 	}
 	switch o.kind {
+	case 'V':
+		return o.vSrc()
 	case 'P':
 		return o.p.src()
 	case 'F':
@@ -253,19 +490,7 @@ func (o op) src() string {
 	default:
 		inner := strings.Join(parts, ";")
 		if inner != "" {
-			for i := len(o.wrap) - 1; i >= 0; i-- {
-				switch o.wrap[i] {
-				case 'f':
-					inner = "func(){" + inner + "}()"
-				case 'l':
-					inner = "(()=>{" + inner + "})()"
-				case 'i':
-					inner = "if true {" + inner + "}"
-				default:
-					inner = "for 1 {" + inner + "}"
-				}
-			}
-			inner += ";"
+			inner = wrapSrc(o.wrap, inner) + ";"
 		}
 		inner += "pp"
 		switch o.form {
@@ -280,6 +505,11 @@ func (o op) src() string {
 func (o op) writes() map[int]bool {
 	w := map[int]bool{}
 	switch o.kind {
+	case 'V':
+		w[o.a] = true
+		if o.v.ret == 'o' {
+			w[o.v.out] = true
+		}
 	case 'P':
 		w[o.p.x] = true
 	case 'F':
@@ -297,6 +527,8 @@ func (o op) writes() map[int]bool {
 }
 func (o op) opName() string {
 	switch o.kind {
+	case 'V':
+		return "variadic"
 	case 'P':
 		return o.p.opName()
 	case 'F':
@@ -370,6 +602,10 @@ func decOps(s string) []op {
 		rest := os[2:]
 		if k == 'P' {
 			ops = append(ops, op{kind: 'P', p: decPrim(rest)})
+			continue
+		}
+		if k == 'V' {
+			ops = append(ops, decV(rest))
 			continue
 		}
 		i := strings.IndexByte(rest, ':')
@@ -498,6 +734,7 @@ func c06Run(c *wctx, slack int, next func(step int, bs [nVars]binding) (op, bool
 	before := se.read()
 	sensitive := false
 	line := ""
+	var fromVariadic [nVars]bool // the binding holds what a variadic call kept of its `..`
 	for idx := 0; ; idx++ {
 		o, more := next(idx, before)
 		if !more {
@@ -506,6 +743,10 @@ func c06Run(c *wctx, slack int, next func(step int, bs [nVars]binding) (op, bool
 		encs = append(encs, o.enc())
 		line = prefix + strings.Join(encs, ";")
 		c.inflight(o.enc(), o.opName()) // flushed before the interpreter runs: the parent knows what was running if this process dies
+		var want vexp
+		if o.kind == 'V' {
+			want = o.vExpect(before)
+		}
 		res, panicked, errs := se.exec(o.src())
 		c.Eval()
 		if panicked {
@@ -532,9 +773,46 @@ func c06Run(c *wctx, slack int, next func(step int, bs [nVars]binding) (op, bool
 				}
 			}
 			if !after[v].present || after[v].text != before[v].text {
-				c.Fail("alias-"+reprName(before[v].kind)+"-"+o.opName(), line,
+				what := reprName(before[v].kind)
+				if fromVariadic[v] {
+					what = "variadic" // narrower: the changed value is what a variadic call made of its extra arguments
+				}
+				c.Fail("alias-"+what+"-"+o.opName(), line,
 					fmt.Sprintf("step %d %q changed %s: %s -> %s", idx, o.src(), vname(v), before[v].text, after[v].text))
 			}
+		}
+		for v := range w {
+			if v < nVars {
+				fromVariadic[v] = false
+			}
+		}
+		if o.kind == 'V' {
+			// the call itself, against the harness's reference semantics (values of the arguments when the call is made)
+			r := o.a
+			switch {
+			case want.err:
+				if res != "err" {
+					c.Fail("variadic-call-accepted", line, fmt.Sprintf("step %d %q: an error was expected (unbound argument / too few arguments / empty `..` sliced), got %s", idx, o.src(), res))
+				}
+			case res == "err":
+				c.Fail("variadic-call-error", line, fmt.Sprintf("step %d %q: %v, expected %s=%s", idx, o.src(), errs, vname(r), want.res))
+			default:
+				if !after[r].present || after[r].text != want.res || after[r].kind != want.resKind {
+					c.Fail("variadic-result-"+string(o.v.ret), line, fmt.Sprintf("step %d %q: %s=%c%s, expected %c%s", idx, o.src(), vname(r), after[r].kind, after[r].text, want.resKind, want.res))
+				}
+				fromVariadic[r] = o.v.ret != 'o'
+				if q := o.v.out; want.setsOut && q != r {
+					if !after[q].present || after[q].text != want.out || after[q].kind != want.outKind {
+						c.Fail("variadic-result-o", line, fmt.Sprintf("step %d %q: %s=%c%s, expected %c%s", idx, o.src(), vname(q), after[q].kind, after[q].text, want.outKind, want.out))
+					}
+					fromVariadic[q] = true
+				}
+			}
+			d := o.fnDepth()
+			if o.v.hasP() {
+				d++
+			}
+			c.Count("variadic=" + string(o.v.ret) + string(o.v.ff) + "/site-depth" + strconv.Itoa(d))
 		}
 		c.Count("op=" + o.opName())
 		if o.kind == 'C' {
@@ -641,6 +919,13 @@ func corpus() [][]op {
 		// fork of an array with spare capacity: grown by append, shrunk by a slice
 		{arrLit(0, 8), P("PL", 0, 0, 0, 0, I(9)), P("PL", 0, 0, 0, 0, I(10)), P("PL", 2, 0, 0, 0, I(11)), P("PL", 3, 0, 0, 0, I(12)),
 			P("SL", 0, 0, 0, 9, elem{}), P("PL", 4, 0, 0, 0, I(13)), call(5, 0, 'f', "f", prim{kind: "PL", x: paramVar, y: 0, e: I(14)})},
+		// variadic calls made inside function bodies with outer variables as extra arguments; the arguments and the results change afterwards
+		{arrLit(0, 3), mapLit(1, 5), vop(4, "f", 0, 'd', 'n', 0, 0, av(0), ai(5)), P("IS", 0, 0, 0, 0, I(99)), P("PL", 0, 0, 0, 0, I(4)),
+			vop(5, "lf", 1, 'p', 'f', 0, 0, ai(1), av(1)), P("DL", 1, 0, 1, 0, elem{}), P("IS", 1, 0, 2, 0, I(98)), P("IS", 4, 0, 1, 0, I(97)), P("UB", 1, 0, 0, 0, elem{})},
+		{arrLit(0, 12), mapLit(1, 3), arrLit(3, 1), vop(4, "o", 0, 'a', 'l', 0, 0, ap(), av(1), av(0)), vop(5, "ff", 2, 'o', 'n', 0, 3, al(1), ae(0), av(1), av(0), ai(2)),
+			P("IS", 0, 0, -1, 0, I(99)), P("IS", 1, 0, 9, 0, I(98)), call(6, 1, 'f', "f", prim{kind: "IS", x: 0, i: 0, e: I(96)}), vop(6, "", 0, 's', 'n', 0, 0, av(1), av(0))},
+		// a last argument that is an array is spread, also when it is an outer variable named inside a function body
+		{arrLit(0, 3), arrLit(1, 9), vop(4, "", 0, 'd', 'n', 0, 0, av(0)), vop(5, "f", 0, 'd', 'n', 0, 0, av(0)), vop(6, "fl", 1, 'p', 'l', 0, 0, av(0), av(1)), vop(7, "", 0, 'm', 'f', 1, 0, ap())},
 		// merge
 		{mapLit(0, 3), mapLit(1, 5), P("PL", 2, 0, 0, 0, V(1)), P("PL", 3, 1, 0, 0, V(0)), P("IS", 2, 0, 1, 0, I(9)), P("IS", 3, 0, 1, 0, I(8)), op{kind: 'P', p: prim{kind: "ML", x: 4}}, P("PL", 5, 0, 0, 0, V(4))},
 	}
@@ -1285,6 +1570,104 @@ func famB() family {
 	}
 }
 
+func av(n int) varg   { return varg{kind: 'v', n: int64(n)} }
+func ae(n int) varg   { return varg{kind: 'e', n: int64(n)} }
+func al(n int) varg   { return varg{kind: 'l', n: int64(n)} }
+func ap() varg        { return varg{kind: 'p'} }
+func ai(n int64) varg { return varg{kind: 'i', n: n} }
+func vop(r int, wrap string, np int, ret, ff byte, pv, out int, args ...varg) op {
+	return op{kind: 'V', a: r, wrap: wrap, v: &vcall{np: np, ret: ret, ff: ff, pv: pv, out: out, args: args}}
+}
+
+// family C (variadic calls): a 3-array, a 9-array, a 5-map and a 1-array; calls that keep their `..` in every way, made at top level
+// and 1-3 function bodies deep with outer variables, locals, the parameter and expressions; then the arguments and the results change
+func famC() family {
+	return family{
+		prelude: []op{arrLit(0, 3), arrLit(1, 9), mapLit(2, 5), arrLit(3, 1)},
+		alpha: []op{
+			vop(4, "", 0, 'd', 'n', 0, 0, av(0), av(2)),
+			vop(4, "f", 0, 'd', 'n', 0, 0, av(0), av(2)),
+			vop(5, "lf", 1, 'p', 'f', 0, 0, av(2), av(1), ai(5)),
+			vop(5, "o", 0, 'a', 'l', 1, 0, ap(), av(0), av(2)),
+			vop(6, "f", 0, 'o', 'n', 0, 3, av(2), av(0), ai(1)),
+			vop(4, "ff", 0, 'm', 'n', 0, 0, al(0), ae(1), av(2)),
+			vop(6, "f", 0, 'd', 'f', 0, 0, av(0)),
+			vop(6, "if", 1, 's', 'l', 0, 0, ai(1), av(1), av(2)),
+			P("IS", 0, 0, 0, 0, I(99)), P("PL", 0, 0, 0, 0, I(7)), P("IS", 1, 0, -1, 0, I(98)), P("IS", 2, 0, 1, 0, I(97)), P("DL", 2, 0, 2, 0, elem{}),
+			P("IS", 4, 0, 0, 0, I(50)), P("IN", 3, 0, 0, 0, elem{}), P("UB", 2, 0, 0, 0, elem{}),
+			call(7, 2, 'f', "f", prim{kind: "IS", x: 0, i: 1, e: I(44)}, prim{kind: "IS", x: 2, i: 3, e: I(45)}),
+		},
+	}
+}
+
+func (g *genState) randVariadic(c *wctx) op {
+	v := &vcall{np: c.R.Intn(3), ret: "ddsampo"[c.R.Intn(7)], ff: "nnfl"[c.R.Intn(4)]}
+	o := op{kind: 'V', a: c.R.Intn(nVars), v: v}
+	if c.R.Pct(75) {
+		for d := 1 + c.R.Intn(3); d > 0; d-- {
+			o.wrap += string("fflio"[c.R.Intn(5)])
+		}
+	}
+	if q, ok := g.pick(c, func(b binding) bool { return true }); ok {
+		v.out = q
+	}
+	for v.out == o.a {
+		o.a = c.R.Intn(nVars)
+	}
+	n := v.np + c.R.Intn(4)
+	if c.R.Pct(5) && n > 0 {
+		n--
+	}
+	inFn := o.fnDepth() > 0
+	for i := 0; i < n; i++ {
+		x, ok := g.pick(c, isCont)
+		if !ok || c.R.Pct(12) {
+			v.args = append(v.args, ai(int64(c.R.Intn(50))))
+			continue
+		}
+		if c.R.Pct(25) {
+			x, _ = g.pick(c, anyB)
+		}
+		switch k := c.R.Intn(100); {
+		case k < 55:
+			v.args = append(v.args, av(x))
+		case k < 67:
+			v.args = append(v.args, ae(x))
+		case k < 80 && inFn:
+			v.args = append(v.args, al(x))
+		case k < 92 && !v.hasP():
+			v.pv = x
+			v.args = append(v.args, ap())
+			inFn = true
+		default:
+			v.args = append(v.args, av(x))
+		}
+	}
+	return o
+}
+
+// random sequences around variadic calls: a few containers, then calls and changes of the arguments / results interleaved
+func c06Variadic(c *wctx, maxOps int) {
+	g := &genState{}
+	n := 5 + c.R.Intn(maxOps-4)
+	c06Run(c, 0, func(i int, bs [nVars]binding) (op, bool) {
+		if i >= n {
+			return op{}, false
+		}
+		g.bs = bs
+		if i < 3 {
+			if c.R.Bool() {
+				return arrLit(i, []int{1, 3, 3, 8, 9, 12}[c.R.Intn(6)]), true
+			}
+			return mapLit(i, []int{1, 4, 5, 6}[c.R.Intn(4)]), true
+		}
+		if c.R.Pct(40) {
+			return g.randVariadic(c), true
+		}
+		return g.randOp(c), true
+	})
+}
+
 func pow(a, k int) int {
 	r := 1
 	for ; k > 0; k-- {
@@ -1386,6 +1769,10 @@ func workerMain(spec string) {
 			c06Random(c, j.maxOps)
 		case "fork":
 			c06Fork(c)
+		case "exhC":
+			c06Seq(c, famC().seq(j.k, n), 0)
+		case "vari":
+			c06Variadic(c, j.maxOps)
 		}
 		c.endSeq()
 	}
@@ -1594,7 +1981,9 @@ func runC06(c *Ctx) {
 		"element increment / store into another container / call mutating its parameter and OUTER variables (func, lambda, named function; " +
 		"statements 0-3 function bodies deep, inside if / for) / loop variable, sizes 0..20 crossing 8 and 4 both ways, nested containers; " +
 		"fork histories (one base grown, shrunk or cut out of a bigger container, then 2-3 values derived from the same base by + with keys " +
-		"above / below / between / on the base's, via statements, parameters, outer variables, loops), on one persistent eval.State; " +
+		"above / below / between / on the base's, via statements, parameters, outer variables, loops); variadic calls (0-2 named parameters + .., " +
+		"keeping .. itself / a slice / inside an array or map / in an outer variable; called at top level and 1-3 function bodies deep with outer variables, " +
+		"locals, the parameter and expressions as arguments, which then change - direct oracle only), on one persistent eval.State; " +
 		"every binding read after every statement; each sequence runs in a child process (a crash or hang of the interpreter is a failing input). " +
 		"non-trivial = distinct sequences in which a statement (other than a literal or a read) ran while another live binding held a large array or map"
 	if c.ReplayCase != "" {
@@ -1611,16 +2000,18 @@ func runC06(c *Ctx) {
 		runJobs(c, jobs)
 		return
 	}
-	kA, kB, nRandom, nFork, maxOps := 2, 3, 8000, 6000, 14
+	kA, kB, kC, nRandom, nFork, nVari, maxOps := 2, 3, 3, 8000, 6000, 4000, 14
 	if c.Thorough() {
-		kA, kB, nRandom, nFork, maxOps = 3, 4, 120000, 60000, 16
+		kA, kB, kC, nRandom, nFork, nVari, maxOps = 3, 4, 4, 120000, 60000, 60000, 16
 	}
-	nA, nB := pow(len(famA().alpha), kA), pow(len(famB().alpha), kB)
+	nA, nB, nC := pow(len(famA().alpha), kA), pow(len(famB().alpha), kB), pow(len(famC().alpha), kC)
 	jobs = append(jobs, split("exhA", 0, nA, 400, kA, 0)...)
 	jobs = append(jobs, split("exhB", 0, nB, 400, kB, 0)...)
+	jobs = append(jobs, split("exhC", 0, nC, 400, kC, 0)...)
 	jobs = append(jobs, split("fork", c.R.Next(), nFork, 400, 0, 0)...)
 	jobs = append(jobs, split("rand", c.R.Next(), nRandom, 250, 0, maxOps)...)
+	jobs = append(jobs, split("vari", c.R.Next(), nVari, 400, 0, maxOps)...)
 	c.Extra["exhaustive"] = true
-	c.Extra["exhaustive_sequences"] = nA + nB
+	c.Extra["exhaustive_sequences"] = nA + nB + nC
 	runJobs(c, jobs)
 }
